@@ -152,12 +152,14 @@ def check_case(case, acc, base=None):
     enc, hx = case['enc'], case['hex']
     bad = faults.apply(data, tuple(case['mut']) if case['mut'][0] != 'field' else
                        ('field', case['mut'][1], case['mut'][2]))
-    status, val = faults.guarded(lambda: iso8583.loads(bad, encoding=enc, iso_config=cfg, hex_bitmap=hx), 5.0)
+    status, val = faults.guarded(lambda: iso8583.loads(bad, encoding=enc, iso_config=cfg, hex_bitmap=hx), 3.0)
     verdict, ref = iso_ref.strict_decode(bad, cfg, enc, hx)
     lib = 'accept' if status == 'ok' else 'reject' if (status == 'exc' and isinstance(val, CardutilError)) else 'crash'
     acc.case((case['msg'], enc, hx, repr(case['mut'])), nontrivial=case['mut'][0] != 'none',
              outcome='lib:%s ref:%s' % (lib, verdict))
     if lib == 'crash':
+        if status == 'hang':
+            acc.count('hangs')
         return      # hangs and foreign exceptions are C07's subject
     if lib == 'accept':
         if not isinstance(val, dict):
@@ -210,7 +212,7 @@ def check_closure_case(case, acc, cfg=None):
     head = '1240'.encode(enc) + (bytes(bm).hex().encode('ascii') if hx else bytes(bm))
     tail = b''.join(c07.symbol_bytes(CLOSURE_SYMBOLS[i], enc) for i in case['s'])
     bad = head + tail
-    status, val = faults.guarded(lambda: iso8583.loads(bad, encoding=enc, iso_config=cfg, hex_bitmap=hx), 5.0)
+    status, val = faults.guarded(lambda: iso8583.loads(bad, encoding=enc, iso_config=cfg, hex_bitmap=hx), 3.0)
     verdict, ref = iso_ref.strict_decode(bad, cfg, enc, hx)
     lib = 'accept' if status == 'ok' else 'reject' if (status == 'exc' and isinstance(val, CardutilError)) else 'crash'
     acc.case(('closure', case['cfg'], enc, hx, tuple(case['bits']), tuple(case['s'])), nontrivial=True,
@@ -287,6 +289,9 @@ def run_task(task):
         if i == task['part'] + task['of'] * 3:
             acc.sample(dict(case, base_len=len(base[0])))
         check_case(case, acc, base)
+        if acc.counters.get('hangs', 0) >= 6:
+            acc.count('tasks_cut_short_after_6_hangs')     # non-termination is C07's subject; do not burn hours here
+            break
     return acc
 
 
